@@ -6,6 +6,8 @@ CONSTANTS
   Values <- McValues
   Messages <- McMessages
   Servers <- McServers
+  Forms <- McForms
+  MaxServes = 1
   Deviation = "marshal-error-swallowed"
 INVARIANTS UnmarshalableIsError
 CHECK_DEADLOCK FALSE
